@@ -638,11 +638,42 @@ func (e *Enc) compileCallExpr(c *SpecCtx, x *Expr) CE {
 		}
 		return CE{T: fmt.Sprintf("(forall ((%s Int)) (! (=> %s (= (select %s %s) (select %s %s))) :pattern ((select %s %s))))",
 			q, and(neq...), h, q, h0, q, h, q), Typ: tBool}
-	case "cellsframe": // cellsframe(p1, p2, ...): every object of p1's pointee heap other than the objects the listed pointers point into is as in old()
+	case "otherfields": // otherfields(p, f1, f2, ...): every field of *p other than the named ones is as in old()
+		if len(x.Args) < 1 {
+			fail("%s: otherfields needs a pointer", c.what)
+		}
+		pc := e.compile(c, x.Args[0])
+		pt, ok := pc.Typ.Underlying().(*types.Pointer)
+		if !ok {
+			fail("%s: otherfields of non-pointer", c.what)
+		}
+		stt, ok := pt.Elem().Underlying().(*types.Struct)
+		if !ok {
+			fail("%s: otherfields of non-struct pointer", c.what)
+		}
+		except := map[string]bool{}
+		for _, a := range x.Args[1:] {
+			if a.Op != "ident" {
+				fail("%s: otherfields: field names expected", c.what)
+			}
+			except[a.Name] = true
+		}
+		pl := &Place{Kind: PDeref, Ptr: pc.T, Typ: pt.Elem()}
+		cur := e.getPlace(c.st, pl)
+		old := e.getPlace(c.old, pl)
+		var eqs []Term
+		for i := 0; i < stt.NumFields(); i++ {
+			if except[stt.Field(i).Name()] {
+				continue
+			}
+			eqs = append(eqs, fmt.Sprintf("(= %s %s)", e.B.structField(pt.Elem(), cur, i), e.B.structField(pt.Elem(), old, i)))
+		}
+		return CE{T: and(eqs...), Typ: tBool}
+	case "cellsframe": // cellsframe(p1, p2, ...): every pre-existing cell of p1's pointee heap other than the cells the listed pointers point at is as in old()
 		if len(x.Args) == 0 {
 			fail("%s: cellsframe needs a pointer", c.what)
 		}
-		var refs []Term
+		var ptrs []Term
 		var elem types.Type
 		for _, a := range x.Args {
 			ce := e.compile(c, a)
@@ -653,14 +684,15 @@ func (e *Enc) compileCallExpr(c *SpecCtx, x *Expr) CE {
 			if elem == nil {
 				elem = u.Elem()
 			}
-			refs = append(refs, "(pref "+ce.T+")")
+			ptrs = append(ptrs, ce.T)
 		}
-		q := e.B.freshName("q.r")
+		qr := e.B.freshName("q.r")
+		qi := e.B.freshName("q.i")
 		// only objects that existed in the old state (what was allocated since
 		// has no old content to compare with)
-		neq := []Term{"(>= " + q + " " + e.alloc(c.old) + ")"}
-		for _, r := range refs {
-			neq = append(neq, "(not (= "+q+" "+r+"))")
+		conds := []Term{"(>= " + qr + " " + e.alloc(c.old) + ")"}
+		for _, p := range ptrs {
+			conds = append(conds, fmt.Sprintf("(not (and (= %s (pref %s)) (= %s (pidx %s))))", qr, p, qi, p))
 		}
 		k := e.B.heapName(elem)
 		srt := e.B.heapSort(elem)
@@ -669,8 +701,8 @@ func (e *Enc) compileCallExpr(c *SpecCtx, x *Expr) CE {
 		if h == h0 {
 			return CE{T: "true", Typ: tBool}
 		}
-		return CE{T: fmt.Sprintf("(forall ((%s Int)) (! (=> %s (= (select %s %s) (select %s %s))) :pattern ((select %s %s))))",
-			q, and(neq...), h, q, h0, q, h, q), Typ: tBool}
+		return CE{T: fmt.Sprintf("(forall ((%s Int) (%s Int)) (! (=> %s (= (select (select %s %s) %s) (select (select %s %s) %s))) :pattern ((select (select %s %s) %s))))",
+			qr, qi, and(conds...), h, qr, qi, h0, qr, qi, h, qr, qi), Typ: tBool}
 	case "mapsframe": // mapsframe(m1, m2, ...): every map of m1's type other than the listed ones is as in old()
 		if len(x.Args) == 0 {
 			fail("%s: mapsframe needs a map", c.what)
